@@ -365,6 +365,12 @@ def oracle(view, argv, exc, argv_same, fp_same, repeat_same, kws=None):
         f = tflags.get(rest[-1])
         if f is not None and View.takes_value(f) and not f["optional"] and not raised:
             return "value-requiring flag %r left without a value was accepted (documented: ParseError)" % rest[-1]
+    # --- (b') ... or followed directly by another flag of the same task
+    if len(rest) >= 2 and plain_bools(rest[:-2]) and not fill:
+        f, g = tflags.get(rest[-2]), tflags.get(rest[-1])
+        if (f is not None and g is not None and g is not f and View.takes_value(f) and not f["optional"] and not raised):
+            return ("value-requiring flag %r followed by flag %r (so left without a value) was accepted "
+                    "(documented: ParseError)" % (rest[-2], rest[-1]))
     # --- (c) unfilled positionals
     if fill and plain_bools(rest) and not raised:
         return "task %r accepted without its positional argument(s) (documented: ParseError)" % body[0]
